@@ -220,8 +220,14 @@ fn gen_valid(r: &mut Rng, b: &hb_buffer_t) -> Op {
                 9 => {
                     let bit = 4 + r.below(6) as u32;
                     let m = ((1u32 << (1 + r.below(3))) - 1) << bit;
-                    let (s, e) = rand_range(r, 0, 14);
-                    let (s, e) = if r.chance(1, 5) { (0u32, u32::MAX) } else { (s as u32, e as u32) };
+                    // ranges are CLUSTER ranges: draw the bounds from the cluster values present, from the buffer
+                    // length (a position, not a cluster) and from small numbers; a fifth are the global range
+                    let cls: Vec<u32> = b.info[..b.len].iter().map(|i| i.cluster).collect();
+                    let (s0, e0) = rand_range(r, 0, 14);
+                    let pickc = |r: &mut Rng| -> u32 { if cls.is_empty() { r.below(14) as u32 } else { *r.pick(&cls) } };
+                    let s = match r.below(4) { 0 | 1 => 0u32, 2 => pickc(r), _ => s0 as u32 };
+                    let e = match r.below(6) { 0 => len as u32, 1 => len as u32 + 1, 2 => pickc(r), 3 => pickc(r) + 1, 4 => s + 1 + r.below(3) as u32, _ => e0 as u32 };
+                    let (s, e) = if r.chance(1, 5) { (0u32, u32::MAX) } else { (s, e) };
                     return Op::SetMasks((r.below(8) as u32) << bit, m, s, e);
                 }
                 10 if len > 0 => {
